@@ -87,14 +87,57 @@ class Ctx:
                         pass
                 ex.shutdown(wait=False, cancel_futures=True)
             else:
-                results = [f.result() for f in futs]
-                ex.shutdown(wait=True)
+                from concurrent.futures.process import BrokenProcessPool
+                died = []
+                for i, f in enumerate(futs):
+                    try:
+                        results.append(f.result())
+                    except BrokenProcessPool:
+                        results.append(None)
+                        died.append(i)
+                ex.shutdown(wait=False, cancel_futures=True)
+                if died:
+                    # a worker process died (abort/segfault in native code of the tree under test):
+                    # every job that was pending shares the exception.  Re-run them one per fresh
+                    # process to find the jobs that kill their process; those are violations.
+                    results = self._isolate(died, results, argslist, func, envd, mpctx, limit)
         if os.environ.get("VERIF_DEBUG"):
             print("  pmap %s %s: %d jobs, %.1fs since start" % (
                 envd.get("fw"), func, len(argslist), time.time() - self.t0), flush=True)
         if merge:
             for r in results:
                 self.absorb(r)
+        return results
+
+    def _isolate(self, died, results, argslist, func, envd, mpctx, limit):
+        """the pool broke: run the jobs that did not complete once more in a fresh pool of the same
+        shape.  If that pool dies as well the death is reproducible and attributed to the native code
+        of the tree under test (a violation); if it completes, the first death was transient."""
+        from concurrent.futures.process import BrokenProcessPool
+        import concurrent.futures as _cf
+        nproc = max(1, min(self.jobs, len(died)))
+        ex2 = ProcessPoolExecutor(nproc, mp_context=mpctx, initializer=_worker.init, initargs=(envd,))
+        futs = {i: ex2.submit(_worker.call, func, argslist[i]) for i in died}
+        _cf.wait(list(futs.values()), timeout=limit)
+        again = []
+        for i, f in futs.items():
+            try:
+                results[i] = f.result(timeout=0)
+            except (BrokenProcessPool, _cf.TimeoutError):
+                results[i] = {"evals": 0}
+                again.append(i)
+        ex2.shutdown(wait=False, cancel_futures=True)
+        if again:
+            self.timed_out = True
+            results[again[0]] = {"evals": 0, "viol": [{
+                "sig": "%s|process-died|%s" % (self.pid, func.split(":")[1]),
+                "desc": "worker processes running these jobs died abruptly in two independent pools "
+                        "(abort/segfault/heap corruption in native code of the tree under test); "
+                        "%d jobs were pending, e.g. %s %s" % (len(again), func, str(argslist[again[0]])[:200]),
+                "replay": {"env": {"fw": envd.get("fw"), "nvx": str(envd.get("nvx"))},
+                           "func": func, "arg": argslist[again[0]], "no_confirm": True}}]}
+        else:
+            print("  note: a worker process died once (%d jobs re-run successfully)" % len(died), flush=True)
         return results
 
     def absorb(self, r):
